@@ -75,7 +75,11 @@ impl Oracle for CrashOracle {
         if let Some((_, label)) = &rec.crashed_at {
             if label.contains("Txn") {
                 for (k, gv) in &w.views[node].groups {
-                    let Some(pv) = w.prev_view.groups.get(k) else { continue };
+                    // baseline: the database as it was at the statement boundary in front of the
+                    // interrupted transaction (earlier statements of the same call - a rollback
+                    // that precedes the relay replacement - are committed and stay), else the
+                    // state before the call
+                    let Some(pv) = w.txn_baseline_view.as_ref().map(|v| v.groups.get(k)).unwrap_or_else(|| w.prev_view.groups.get(k)) else { continue };
                     // what the interrupted transaction covers
                     let ev_hex: String = match &rec.step.op {
                         Op::Deliver { ev } => w.ev(*ev).map(|p| p.event.id.to_hex()).unwrap_or_default(),
@@ -161,7 +165,7 @@ struct CrashRun {
 
 /// Execute `steps` with a crash at (target step id, tick k). After the crash the interrupted call
 /// is issued again; then the remaining steps and the quiescence phase run.
-fn run_crash(cfg: &RunCfg, steps: &[Step], target: u32, k: u64, reissue: bool) -> Result<CrashRun, String> {
+fn run_crash(cfg: &RunCfg, steps: &[Step], target: u32, k: u64, reissue: bool, baseline: Option<u64>) -> Result<CrashRun, String> {
     let cfg2 = cfg.clone();
     let steps2: Vec<Step> = steps.to_vec();
     seam::run_isolated(cfg.seed, T0, move || {
@@ -171,6 +175,7 @@ fn run_crash(cfg: &RunCfg, steps: &[Step], target: u32, k: u64, reissue: bool) -
             let _ = w.add_node(nc.clone());
         }
         w.arm_crash = if k == 0 { None } else { Some((target, k)) };
+        w.arm_baseline = baseline.map(|j| (target, j));
         let mut gn = Gen::new(cfg2.clone());
         for (i, s) in steps2.iter().enumerate() {
             if let Some(nx) = steps2.get(i + 1) {
@@ -271,7 +276,7 @@ pub fn post(v: &Variant, out: &RunOutput) -> (Vec<Violation>, Vec<(String, u64)>
                     }
                 }
             }
-            let mut ticks: Vec<(u32, usize, u64, String, Op, Vec<u64>)> = vec![];
+            let mut ticks: Vec<(u32, usize, u64, String, Op, Vec<u64>, Vec<String>)> = vec![];
             for s in &st {
                 if let Op::Deliver { ev } = &s.op {
                     let ok = match w.ev(*ev) {
@@ -285,7 +290,7 @@ pub fn post(v: &Variant, out: &RunOutput) -> (Vec<Violation>, Vec<(String, u64)>
                 let rec = w.exec(s);
                 let line = w.log.last().cloned().unwrap_or_default();
                 let txn_ticks: Vec<u64> = w.last_tick_labels.iter().enumerate().filter(|(_, l)| l.contains("Txn") || l.contains("Open")).map(|(i, _)| i as u64 + 1).collect();
-                ticks.push((s.id, s.node, rec.ticks, line, s.op.clone(), txn_ticks));
+                ticks.push((s.id, s.node, rec.ticks, line, s.op.clone(), txn_ticks, w.last_tick_labels.clone()));
             }
             w.count_ticks = false;
             let withheld = gn.withheld.clone();
@@ -303,7 +308,7 @@ pub fn post(v: &Variant, out: &RunOutput) -> (Vec<Violation>, Vec<(String, u64)>
     // choose targets: one per operation kind, seeded
     let mut r = Rng::new(out.cfg.seed).fork(1212);
     let mut by_kind: BTreeMap<&'static str, Vec<usize>> = BTreeMap::new();
-    for (i, (_, node, t, line, op, _)) in ticks.iter().enumerate() {
+    for (i, (_, node, t, line, op, _, _)) in ticks.iter().enumerate() {
         if *t == 0 || !out.cfg.nodes[*node].backend.is_sqlite() {
             continue;
         }
@@ -320,7 +325,7 @@ pub fn post(v: &Variant, out: &RunOutput) -> (Vec<Violation>, Vec<(String, u64)>
     let mut points = 0usize;
     let mut seen_classes: BTreeSet<String> = BTreeSet::new();
     'outer: for ti in targets {
-        let (sid, node, t, line, op, txn_ticks) = &ticks[ti];
+        let (sid, node, t, line, op, txn_ticks, labels) = &ticks[ti];
         let kind = op_kind(line, op);
         // which ticks: thorough all; quick a seeded sample of <= 6 plus first and last
         let mut ks: Vec<u64> = (1..=*t).collect();
@@ -341,7 +346,14 @@ pub fn post(v: &Variant, out: &RunOutput) -> (Vec<Violation>, Vec<(String, u64)>
             }
             points += 1;
             *probes.entry(format!("crash_points:{kind}")).or_insert(0) += 1;
-            let cr = match run_crash(&out.cfg, &steps, *sid, k, reissue) {
+            // a crash inside an explicit transaction: remember the database at the statement
+            // boundary in front of it (the nearest earlier tick outside any transaction)
+            let baseline = if labels.get(k as usize - 1).map(|l| l.contains("Txn")).unwrap_or(false) {
+                (1..k).rev().find(|j| labels.get(*j as usize - 1).map(|l| !l.contains("Txn")).unwrap_or(false))
+            } else {
+                None
+            };
+            let cr = match run_crash(&out.cfg, &steps, *sid, k, reissue, baseline) {
                 Ok(c) => c,
                 Err(e) => {
                     viols.push(Violation { property: "C12".into(), clause: "panic-during-recovery".into(), step: Some(*sid), node: Some(*node), detail: format!("{kind} tick {k}/{t}: {e}"), known: None });
@@ -377,7 +389,7 @@ pub fn post(v: &Variant, out: &RunOutput) -> (Vec<Violation>, Vec<(String, u64)>
                             let idx = steps.iter().position(|s| s.id == *sid).unwrap_or(0);
                             let mut twin = steps.clone();
                             twin.insert(idx, Step { id: 900_000, node: *node, dt: 0, op: Op::Restart });
-                            if let Ok(tr) = run_crash(&out.cfg, &twin, *sid, 0, false) {
+                            if let Ok(tr) = run_crash(&out.cfg, &twin, *sid, 0, false, None) {
                                 if tr.finals.len() == base_cmp.len() && tr.finals.iter().zip(base_cmp.iter()).any(|(f, b)| cmp_view(f) != *b) {
                                     kn = Some("KF-C12-2".into());
                                 }
